@@ -50,3 +50,47 @@ Example C13_example :
   forallb item_ok items = true /\
   frames_of 64 TUniRemote false (enc_items items) = ([mkframe KSettings [] None], EndNeedMore).
 Proof. vm_compute. split; reflexivity. Qed.
+
+(* ---------------- settings, capsules, unidirectional streams, runners ---------------- *)
+From WT.Model Require Import Wire Qpack Session Runner.
+From WT.Proofs Require Import WireP RunnerP.
+
+(* unknown setting ids are skipped, GREASE ids are stored apart: for every order and every
+   placement, the known settings read from the frame are exactly the known ones written *)
+Theorem C13_settings_unknown_transparent :
+  forall l m, forallb pair_ok l = true -> sok_nodup [] l = true ->
+    settings_with_frame (settings_payload l) = Val m ->
+    filter is_known_setting m = filter is_known_setting l.
+Proof. exact settings_unknown_transparent. Qed.
+
+(* a capsule of any other type is skipped *)
+Theorem C13_unknown_capsule_skipped :
+  forall ty rest, ty <= varint_max -> ty <> capsule_close_type -> capsule_with_frame (enc ty ++ rest) = None.
+Proof. exact other_capsule_skipped. Qed.
+
+(* the session stream: any number of skippable elements (unknown frames, GREASE frames,
+   unknown capsules) change nothing *)
+Theorem C13_session_stream_skips :
+  forall items f rest t, forallb sitem_ok items = true ->
+    connect_run (S (sitems_frames items + f)) (enc_sitems items ++ rest) t = connect_run (S f) rest t.
+Proof. exact connect_run_skip_items. Qed.
+
+(* the control stream: unknown frames anywhere, GREASE frames after SETTINGS *)
+Theorem C13_control_stream_unknown_frame :
+  forall u p rest t f have, fkind_parse u = None -> u <= varint_max -> len p <= varint_max ->
+    settings_run (S f) have (unknown_frame u p ++ rest) t = settings_run (S f) have rest t.
+Proof. exact settings_run_unknown_frame. Qed.
+Theorem C13_control_stream_grease :
+  forall id p rest t f m, is_exercise id = true -> id <= varint_max -> len p <= max_parse_payload ->
+    settings_run (S f) (Some m) (frame_write (mkframe (KExercise id) p None) ++ rest) t = settings_run f (Some m) rest t.
+Proof. exact settings_run_grease_after_settings. Qed.
+
+(* an unknown unidirectional stream type, whatever follows, never closes the connection *)
+Theorem C13_unknown_uni_stream_never_closes :
+  forall c id rest t, skind_parse id = None -> id <= varint_max ->
+    uni_accept c (enc id ++ rest) t = (RIgnoreStream EStreamCreation, c).
+Proof. exact uni_accept_unknown_never_closes. Qed.
+
+(* the code before the repair (fix: 4af9bb3) closed the connection *)
+Theorem C13_uni_legacy_refuted : exists c d t e, uni_accept_legacy c d t = (RClose e, c).
+Proof. exact uni_accept_legacy_refuted. Qed.
